@@ -9,6 +9,8 @@ def text_edit(old, new):
     return edit
 O_ = 'src/pharmpy/model/external/nonmem/records/omega_record.py'
 MUTANTS = [
+    Mutant('omega_single_form', O_, text_edit("                                    if sd:\n                                        A[i, j] = A[i, i] * A[j, j] * A[i, j]\n                                    else:\n                                        A[i, j] = math.sqrt(A[i, i]) * math.sqrt(A[j, j]) * A[i, j]", "                                    A[i, j] = math.sqrt(A[i, i]) * math.sqrt(A[j, j]) * A[i, j]"), 'A7', 'SD case dropped'),
+    Mutant('flink_wrong_scale', A, text_edit("                    expr = func / Expr.symbol(s)", "                    expr = func / Expr.symbol(scaling)"), 'A9', 'guard and use disagree'),
     Mutant('des_snapshot_hoisted', 'src/pharmpy/model/statements.py', text_edit("            for term in terms:\n                assert isinstance(term, sympy.Expr)\n                from_comp = None", "            cs = CompartmentalSystem(cb)\n            for term in terms:\n                assert isinstance(term, sympy.Expr)\n                from_comp = None").__call__ and (lambda src: (lambda a: a.replace("                    cs = CompartmentalSystem(cb)\n                    current_flow", "                    current_flow", 1) if a else None)(text_edit("            for term in terms:\n                assert isinstance(term, sympy.Expr)\n                from_comp = None", "            cs = CompartmentalSystem(cb)\n            for term in terms:\n                assert isinstance(term, sympy.Expr)\n                from_comp = None")(src))), 'A6', 'snapshot taken once per compartment'),
     Mutant('omega_sd_branches_swapped', O_, text_edit("                                    if sd:\n                                        A[i, j] = A[i, i] * A[j, j] * A[i, j]", "                                    if not sd:\n                                        A[i, j] = A[i, i] * A[j, j] * A[i, j]"), 'A7', 'SD and VARIANCE forms swapped'),
     Mutant('omega_square_first', O_, text_edit("                    A = flattened_to_symmetric(inits)\n", "                    A = flattened_to_symmetric(inits)\n                    if sd:\n                        np.fill_diagonal(A, A.diagonal() ** 2)\n"), 'A7', 'diagonal squared before correlations are converted'),
